@@ -137,6 +137,15 @@ def eval_case(opname, fn, shapes, args, kwargs, st, need_incompat, ann=None):
             viol('plain-inputs-no-deprecation-warning')
     elif pstatus == 'other':
         viol('non-valueerror-escapes', exception=type(pres).__name__, inputs='plain')
+    # ---- and with only the later inputs plain (the first one upgraded) ---
+    if len(sigs) > 1 and status == 'ok' and (opname == 'merge' or all(kwargs.get(f, True) for f in ('use_varargs', 'use_varkwargs', 'partial'))):
+        mstatus, mres, mdep = run_op(fn, [sigs[0]] + plain[1:] + list(args), kwargs)
+        st.inc('transitions')
+        if mstatus != 'ok' or alg.params_key(mres) != alg.params_key(res):
+            viol('plain-inputs-differ', inputs='first upgraded, the others plain',
+                 plain_outcome=alg.sig_str(mres) if mstatus == 'ok' else repr(mres))
+        elif not mdep:
+            viol('plain-inputs-no-deprecation-warning', inputs='first upgraded, the others plain')
     return out or None
 
 
